@@ -414,6 +414,71 @@ func runSeq(w *tracelog.Writer, seed int64, traces, ops int, capM uint64, disk b
 			os.RemoveAll(tmp)
 		}
 	}
+	if capM == 1 && !disk {
+		return runBulk(w, seed, traces)
+	}
+	return nil
+}
+
+// runBulk fills a 1 MB store with about 25 000 TINY items (values of 0..18 bytes), so that the farthest 5 % of the capacity
+// is more than a thousand items, and measures the bytes held right before and right after every put near the capacity
+// (sums only - a snapshot of 25 000 items per event is beyond the judge): the put that crosses the capacity must free
+// 5 % of it in the same call however many items that takes.
+func runBulk(w *tracelog.Writer, seed int64, t int) error {
+	rng := common.Rng(seed*1000003 + 777)
+	e := &env{capM: 1}
+	rng.Read(e.node[:])
+	e.fs, e.dir = vfs.NewMem(), "db"
+	if err := e.open(); err != nil {
+		return err
+	}
+	defer e.close()
+	capB := 1000000
+	w.Emit(map[string]any{"ev": "init", "t": t, "node": tracelog.Ints(e.node[:]), "cap": capB})
+	sums := func() (count, held, rec int) {
+		rec = -1
+		it, err := e.db.NewIter(&cp.IterOptions{})
+		if err != nil {
+			panic(err)
+		}
+		defer it.Close()
+		for it.First(); it.Valid(); it.Next() {
+			if bytes.Equal(it.Key(), storage.SizeKey) {
+				if len(it.Value()) == 8 {
+					rec = int(binary.BigEndian.Uint64(it.Value()))
+				}
+				continue
+			}
+			count++
+			held += len(it.Key()) + len(it.Value())
+		}
+		return
+	}
+	sum, crossings := 0, 0
+	for i := 0; i < 60000 && crossings < 2; i++ {
+		id := make([]byte, 32)
+		rng.Read(id)
+		n := rng.Intn(19)
+		v := mkVal(rng, n)
+		near := sum+32+n > capB-1500
+		pre, prec := 0, 0
+		if near {
+			prec, pre, _ = sums()
+		}
+		err := e.cs.Put(nil, id, v)
+		if !near {
+			if err == nil {
+				sum += 32 + n
+			}
+			continue
+		}
+		postc, post, rec := sums()
+		w.Emit(map[string]any{"ev": "bulk", "t": t, "len": 32 + n, "res": putRes(err), "pre": pre, "precount": prec, "post": post, "postcount": postc, "sizeRec": rec})
+		if err == nil && pre+32+n > capB {
+			crossings++
+		}
+		sum = post
+	}
 	return nil
 }
 
